@@ -21,6 +21,7 @@ fn main() {
         "c10" => checks::c10::run(&a),
         "c11" => checks::c11::run(&a),
         "c12" => checks::c12::run(&a),
+        "c13" => checks::c13::run(&a),
         "c14" => checks::c14::run(&a),
         other => {
             eprintln!("unknown check {other}");
